@@ -151,6 +151,8 @@ def _wide_programs(tier: str):
         if k <= 6:
             for pair in ((0, 1), (0, k - 1), (1, k - 2)):
                 yield {"wide": k, "tasks": list(pair), "how": "create"}
+                if k == 4:
+                    yield {"wide": k, "tasks": list(pair), "how": "spawn"}
     for k in (2, 3, 5):
         yield {"wide": k, "tasks": [], "how": "create", "same_label": True}
         yield {"wide": k, "tasks": [0], "how": "create", "same_label": True}
